@@ -382,8 +382,9 @@ def drainKafka (fixed : Bool) (k : Int) (s1 : RS) : Outcome × RS :=
     | (.error e, s2) => (.fail e, s2)
   else (.kafka k, s1)
 
-/-- ReadBatchWith + reading the batch to its end + Close; `fixed` = with discardOnKafkaError (D2 fix) and with the
-skip of the message set at the high watermark (C11-D32).
+/-- ReadBatchWith + reading the batch to its end + Close; `fixed` = with discardOnKafkaError (D2 fix), with the
+skip of the message set at the high watermark (C11-D32) and with Batch.close minding the error of its final discard
+(C02-D33).
 Deadlines never expire in the model (checkTimeoutErr = io.EOF). -/
 def fetchRead (fixed : Bool) (v : Nat) (offset : Int) (b : Body) (s : RS) : Outcome × RS :=
   match runSteps (fetchHeader v) { ver := v } s with
@@ -403,10 +404,10 @@ def fetchRead (fixed : Bool) (v : Nat) (offset : Int) (b : Body) (s : RS) : Outc
           (match discardN s3.sz s3 with
            | (.ok _, s4) => (.ok, s4)                           -- remaining() == 0 → io.EOF: batch complete, Close() = nil
            | (.error e, s4) => (.fail (if e = .eof then .unexpectedEOF else e), s4))
-        | (.kafka k, s3) =>                                     -- a kafka error out of ReadMessage: Close discards, Conn kept
-          (match discardN s3.sz s3 with
-           | (.ok _, s4) => (.kafka k, s4)
-           | (.error _, s4) => (.kafka k, s4))
+        | (.kafka k, s3) =>                                     -- a kafka error out of ReadMessage: Close discards, Conn kept —
+          (match discardN s3.sz s3 with                         -- unless the rest cannot be skipped (fix C02-D33; before it
+           | (.ok _, s4) => (.kafka k, s4)                      -- Batch.close ignored the error of msgs.discard())
+           | (.error e, s4) => if fixed then (.fail (if e = .eof then .unexpectedEOF else e), s4) else (.kafka k, s4))
         | (e, s3) => (.fail e, s3)
 
 def connFetch (fixed : Bool) (v : Nat) (offset : Int) (b : Body) (c : Conn) : Outcome × Conn :=
@@ -435,5 +436,22 @@ def idealBody : Body where
   rest := fun s =>
     if s.inp.length < s.sz then (.unexpectedEOF, ⟨[], s.sz - s.inp.length⟩)
     else (.shortRead, ⟨s.inp.drop s.sz, 0⟩)
+
+/-- message_reader.go readHeader, as far as its SIZE goes: offset (8), length (4), crc / leader epoch (4), magic (1),
+then what the format adds before the first message can be looked at — v0: attributes (1); v1: attributes, timestamp
+(9); v2: the rest of the batch header (44).  A set that does not hold that much makes `newMessageSetReader` fail with
+errShortRead (io.ErrUnexpectedEOF for the caller, Conn closed). -/
+def headerNeed (magic : UInt8) : Nat :=
+  if magic = 0 then 18 else if magic = 1 then 26 else if magic = 2 then 61 else 17
+
+/-- `idealBody` with the header-size rule: the reader that reads a set to its end, and refuses a set too short for
+one message/batch header (what the driver's oracle runs) -/
+def headerBody : Body where
+  first := fun s =>
+    if s.sz < 17 then (.error .shortRead, s)
+    else if s.inp.getD 16 0 > 2 then (.error (.other "unsupported message version"), s)   -- header.badMagic()
+    else if s.sz < headerNeed (s.inp.getD 16 0) then (.error .shortRead, s)
+    else (.ok (), s)
+  rest := idealBody.rest
 
 end KV.ConnOps
